@@ -276,6 +276,26 @@ func Share(p any)        {}
 func Yield()             {}
 func LocksHeld() int     { return 0 }
 
+// NowNano reads the clock (engine: a fresh symbolic instant >= all earlier ones; native replay:
+// the next recorded instant, shared with the time shim).
+func NowNano() int64 { return int64(next("clock")) }
+
+// AdvanceHook is installed by the time shim (native replay only).
+var AdvanceHook func(all bool)
+
+// Advance lets the environment fire any subset of the active timers (engine: every subset is
+// explored; native: the recorded choices). Quiesce fires every remaining active timer.
+func Advance() {
+	if AdvanceHook != nil {
+		AdvanceHook(false)
+	}
+}
+func Quiesce() {
+	if AdvanceHook != nil {
+		AdvanceHook(true)
+	}
+}
+
 var stamp int
 
 func Stamp() int { mu.Lock(); defer mu.Unlock(); stamp++; return stamp }
